@@ -40,7 +40,7 @@ void fk_cur_writable(void);
 void fk_advance_ms(long);
 extern unsigned long fk_activity, fk_alloc_count, fk_last_nfds, fk_fail_total;
 extern long fk_fail_at;
-extern int fk_fail_persist, fk_fail_hit, fk_cur, fk_accept_id[64];
+extern int fk_fail_persist, fk_fail_hit, fk_cur, fk_accept_id[64], fk_ctx, fk_fail_where;
 
 /* ------------------------------------------------------------------ script */
 enum { O_READ, O_WRITE, O_ACCEPT, O_CANCEL, O_FEED, O_RUN, O_NRI, O_NRW, O_NRC, O_NRX, O_NRP,
@@ -57,7 +57,7 @@ static struct netbuf_read * NR; static int nr_fd, nr_waiting, nr_lo, nr_hi;
 static struct netbuf_write * NW; static int nw_reserved, nfail; static uint8_t * nw_resptr;
 static int incb;			/* depth of user callbacks */
 static int af_single;			/* af=<k> mode without 'p': retry failed registrations once */
-static int fail_op = -1;		/* op index during which the refusal hit (-2: inside the event loop) */
+static int run_failed;			/* events_run returned non-zero */
 
 static long num(const char * s, int * bad) { char * e; long v = strtol(s, &e, 10); if (*s == 0 || *e != 0 || v < 0 || v > 2000000) *bad = 1; return v; }
 
@@ -157,17 +157,18 @@ static int cb_fail(void * cookie) { (void)cookie; fk_activity++; nfail++; fk_log
 
 static void run_events(void)
 {
-	unsigned long a; int rc, guard = 0;
+	unsigned long a; int rc, guard = 0, ctx = fk_ctx;
+	fk_ctx = -2;
 	do {
-		a = fk_activity; fk_fail_hit = 0;
+		a = fk_activity;
 		rc = events_run();
-		if (fk_fail_hit && fail_op == -1) fail_op = -2;
-		if (rc != 0) { fk_log("run=%d", rc); break; }
+		if (rc != 0) { fk_log("run=%d", rc); run_failed = 1; break; }
 	} while (fk_activity != a && ++guard < 100000);
+	fk_ctx = ctx;
 }
 
 /* the refusal hit during op i (outside the event loop) */
-static int hit(int i) { if (fk_fail_hit) { if (fail_op == -1) fail_op = i; fk_fail_hit = 0; return 1; } return 0; }
+static int hit(int i) { (void)i; if (fk_fail_hit) { fk_fail_hit = 0; return 1; } return 0; }
 
 static void start_req(int i, struct op * o)
 {
@@ -295,7 +296,12 @@ static void exec_op(int i)
 static void exec_range(int lo, int hi)
 {
 	int i = lo;
-	while (i < hi) { exec_op(i); i = ops[i].hi > i + 1 ? ops[i].hi : i + 1; }
+	while (i < hi) {
+		if (incb == 0) fk_ctx = i;
+		exec_op(i);
+		if (incb == 0) fk_ctx = -1;
+		i = ops[i].hi > i + 1 ? ops[i].hi : i + 1;
+	}
 }
 
 /* clamp every nwc to the reservation that will be active when it runs (parse order = run order) */
@@ -313,7 +319,7 @@ static void clamp_consumes(void)
 
 static void tail_af(void)
 {
-	fk_log("allocs=%lu refused=%lu failop=%d", fk_alloc_count, fk_fail_total, fail_op);
+	fk_log("allocs=%lu refused=%lu failop=%d", fk_alloc_count, fk_fail_total, fk_fail_where);
 }
 
 static void case_sc(char ** tok, int ntok)
@@ -366,9 +372,10 @@ static void case_conn(const char * timeo, const char * outs, const char * cops)
 	for (i = 0; cops[i] && strcmp(cops, "-") != 0; i++) if (strchr("srx", cops[i]) == NULL) { fk_log("bad-case"); return; }
 	fk_set_outcomes(n ? outs : "");
 again:
-	fk_fail_hit = 0;
+	fk_fail_hit = 0; fk_ctx = 0;
 	C = use_timeo ? network_connect_timeo(sas, &tv, cb_conn, NULL) : network_connect(sas, cb_conn, NULL);
 	fk_log("start=%s", C ? "ok" : "null");
+	fk_ctx = -1;
 	if (hit(0) && C == NULL && af_single && tries++ == 0) goto again;
 	if (C == NULL) conn_done = 1;
 	for (i = 0; strcmp(cops, "-") != 0 && cops[i] && !conn_done; i++) {
@@ -379,6 +386,12 @@ again:
 		default: break;
 		}
 		run_events();
+		if (run_failed && !conn_done) {
+			/* a fatal error inside the event loop: network_connect.c frees its cookie on
+			 * some of these paths and not on others, and the caller cannot tell which
+			 * (DESIGN C14-G5); nothing more can be done with the cookie */
+			fk_log("abandon"); fflush(stdout); _exit(0);
+		}
 	}
 	fk_log("fin=%s", conn_done ? "done" : "running");
 	if (!conn_done) { network_connect_cancel(C); conn_done = 1; }
